@@ -22,7 +22,7 @@ type runeSet []bool // indexed by rune, len unicode.MaxRune+1; nil = every rune
 
 const nRunes = unicode.MaxRune + 1
 
-func rsAny() runeSet { return nil }
+func rsAny() runeSet   { return nil }
 func rsEmpty() runeSet { return make(runeSet, nRunes) }
 func rsOfString(s string) runeSet {
 	r := rsEmpty()
